@@ -8,7 +8,7 @@
 (* TLC checks the C04 / C07 formulas on every reachable state / step of the model (design-level result)     *)
 (* and prints the alphabet; the harness explores the same alphabet exhaustively (bounded) on the real code. *)
 EXTENDS Liquidity, TLC, Json
-CONSTANTS MApp, MUsers, Scope, MaxOid, MMSlack, MaxReq, MaxH, Swapped, Emit
+CONSTANTS MApp, MUsers, Scope, MaxOid, MMMax, MaxReq, MaxH, Swapped, Emit
 
 VARIABLES st, ph          \* ph = "tx": messages or EndBlock may follow; ph = "end": only BeginBlock (a block ends once)
 vars == <<st, ph>>
@@ -123,7 +123,7 @@ Next == \E act \in Alphabet :
              /\ r.ok
              /\ (ph = "end" <=> act.a = "BeginBlock")
              /\ (act.a \in {"LimitOrder", "MarketOrder"} => PairOf(st, MApp, 1).lastOid < MaxOid)
-             /\ (act.a = "MMOrder" => PairOf(st, MApp, 1).lastOid <= MaxOid + MMSlack /\ Cardinality({o \in st.orders : o.typ = "MM"}) <= 4)
+             /\ (act.a = "MMOrder" => MMMax > 0 /\ PairOf(st, MApp, 1).lastOid <= MMMax /\ Cardinality({o \in st.orders : o.typ = "MM"}) <= 4)
              /\ (act.a \in {"Deposit", "DepositAndFarm"} => ~HasPool(st, MApp, 1) \/ PoolOf(st, MApp, 1).lastDep < MaxReq)
              /\ (act.a \in {"Withdraw", "UnfarmAndWithdraw"} => ~HasPool(st, MApp, 1) \/ PoolOf(st, MApp, 1).lastWd < MaxReq)
              /\ (act.a = "CreatePool" => st.lastPool[MApp] = 0)
